@@ -41,7 +41,7 @@ func cases(tier string) int {
 	if tier == "thorough" {
 		return 80000
 	}
-	return 2000
+	return 8000
 }
 
 func TestCheck(t *testing.T) {
